@@ -15,7 +15,7 @@ def write_if_changed(path, text):
 
 
 # which properties rest on which generated fragment
-FRAGMENT_USERS = {"Dispatch": ["C06", "C16"], "Stubs": ["C16", "C03"], "Fields": ["C06", "C08"], "PoolOps": ["C09", "C10", "C11"]}
+FRAGMENT_USERS = {"Dispatch": ["C06", "C16"], "Stubs": ["C16", "C03"], "Fields": ["C06", "C08"], "PoolOps": ["C09", "C10", "C11"], "RPCompare": ["C14"]}
 
 
 def regenerate(repo, outdir, prop=None):
